@@ -3,7 +3,7 @@
 #![allow(dead_code, static_mut_refs)]
 use super::*;
 use crate::kv::*;
-use crate::{kv_cover, kv_end};
+use crate::{kv_assert, kv_cover, kv_end};
 
 // ------------------------------------------------------------------ InvP and state builders
 
@@ -85,20 +85,20 @@ pub(crate) fn same_parser(a: &Parser, b: &Parser) -> bool {
 /// InvP, asserted at witness indices
 fn assert_inv_p(p: &Parser, tag_c01: bool) {
     let _ = tag_c01;
-    assert!(p.cur_param < PARAMS_LEN, "[C01] parser invariant: cur_param stays below 32");
+    kv_assert!(p.cur_param < PARAMS_LEN, "[C01] parser invariant: cur_param stays below 32");
     let i = any_usize();
     assume(i < PARAMS_LEN);
     let j = any_usize();
     assume(j < MAX_PARAM_LEN);
-    assert!(p.params[i].cur_part < MAX_PARAM_LEN, "[C01] parser invariant: cur_part stays below 6");
+    kv_assert!(p.params[i].cur_part < MAX_PARAM_LEN, "[C01] parser invariant: cur_part stays below 6");
     if i > p.cur_param {
-        assert!(
+        kv_assert!(
             p.params[i].cur_part == 0 && p.params[i].parts[j] == 0,
             "[C03] parser invariant: parameters beyond the current one are clear"
         );
     }
     if j > p.params[i].cur_part {
-        assert!(p.params[i].parts[j] == 0, "[C03] parser invariant: sub-parameters beyond the current one are clear");
+        kv_assert!(p.params[i].parts[j] == 0, "[C03] parser invariant: sub-parameters beyond the current one are clear");
     }
 }
 
@@ -347,26 +347,26 @@ pub(crate) fn t_p_trans() {
     }
     let out = p.feed(ch);
     let (want_state, want_act) = ref_step(s, ch);
-    assert!(p.state == want_state, "[C03][C20] next state agrees with the DEC/ANSI parser table");
+    kv_assert!(p.state == want_state, "[C03][C20] next state agrees with the DEC/ANSI parser table");
     let (ract, rchar, rcalls) = unsafe { (REC_ACT, REC_CHAR, REC_CALLS) };
     match want_act {
         Act::Print => {
-            assert!(out == Some(Function::Print(ch)), "[C03] printable text in ground state is printed as is");
-            assert!(rcalls == 0, "[C03] print performs no other action");
+            kv_assert!(out == Some(Function::Print(ch)), "[C03] printable text in ground state is printed as is");
+            kv_assert!(rcalls == 0, "[C03] print performs no other action");
         }
         Act::Ignore => {
-            assert!(out.is_none() && rcalls == 0, "[C03][C20] ignored characters cause no action");
+            kv_assert!(out.is_none() && rcalls == 0, "[C03][C20] ignored characters cause no action");
         }
         a => {
             // under Kani the helpers are recorders; in a native replay the real helpers ran, so
             // the same clause is judged from what is observable (returned function / fields)
             #[cfg(kani)]
             {
-                assert!(rcalls == 1 && ract == act_code(a), "[C03][C20] kind of action agrees with the DEC/ANSI parser table");
+                kv_assert!(rcalls == 1 && ract == act_code(a), "[C03][C20] kind of action agrees with the DEC/ANSI parser table");
                 if a != Act::Clear {
-                    assert!(rchar == ch as u32, "[C03] the action receives the input character itself");
+                    kv_assert!(rchar == ch as u32, "[C03] the action receives the input character itself");
                 }
-                assert!(out.is_none(), "[C03] recorded dispatch returns through the helper only");
+                kv_assert!(out.is_none(), "[C03] recorded dispatch returns through the helper only");
             }
             #[cfg(not(kani))]
             {
@@ -378,7 +378,7 @@ pub(crate) fn t_p_trans() {
                     Act::Put | Act::OscPut | Act::Param => out.is_none(),
                     _ => true,
                 };
-                assert!(ok, "[C03][C20] kind of action agrees with the DEC/ANSI parser table");
+                kv_assert!(ok, "[C03][C20] kind of action agrees with the DEC/ANSI parser table");
             }
         }
     }
@@ -404,17 +404,17 @@ pub(crate) fn t_p_param_kernel() {
     if any_bool() {
         q.add_digit(d);
         let want = ((old.parts[old.cur_part] as u32 * 10 + d as u32) % 65536) as u16;
-        assert!(q.cur_part == old.cur_part, "[C03] a digit stays in the current sub-parameter");
+        kv_assert!(q.cur_part == old.cur_part, "[C03] a digit stays in the current sub-parameter");
         if j == old.cur_part {
-            assert!(q.parts[j] == want, "[C03] digits accumulate decimally (mod 2^16)");
+            kv_assert!(q.parts[j] == want, "[C03] digits accumulate decimally (mod 2^16)");
         } else {
-            assert!(q.parts[j] == old.parts[j], "[C03] a digit changes only the current sub-parameter");
+            kv_assert!(q.parts[j] == old.parts[j], "[C03] a digit changes only the current sub-parameter");
         }
         kv_cover!(old.parts[old.cur_part] == 65535, "digit after 65535");
     } else {
         q.add_part();
-        assert!(q.cur_part == if old.cur_part < 5 { old.cur_part + 1 } else { 5 }, "[C03] ':' advances the sub-parameter, at most 6 of them");
-        assert!(q.parts[j] == old.parts[j], "[C03] ':' changes no value");
+        kv_assert!(q.cur_part == if old.cur_part < 5 { old.cur_part + 1 } else { 5 }, "[C03] ':' advances the sub-parameter, at most 6 of them");
+        kv_assert!(q.parts[j] == old.parts[j], "[C03] ':' changes no value");
         kv_cover!(old.cur_part == 5, "seventh sub-parameter");
     }
     kv_end!();
@@ -435,26 +435,26 @@ pub(crate) fn t_p_param(cur_param: usize) {
     let old_int = p.intermediate;
     let cp_cur_part = p.params[cur_param].cur_part;
     p.param(c);
-    assert!(p.state == old_state && p.intermediate == old_int, "[C03] a parameter character changes neither state nor intermediate");
+    kv_assert!(p.state == old_state && p.intermediate == old_int, "[C03] a parameter character changes neither state nor intermediate");
     if c == ';' {
-        assert!(p.cur_param == if cur_param < 31 { cur_param + 1 } else { 31 }, "[C03] ';' starts the next parameter, at most 32 of them");
-        assert!(p.params[i].parts[j] == old_part && p.params[i].cur_part == old_cur_part, "[C03] ';' changes no value");
+        kv_assert!(p.cur_param == if cur_param < 31 { cur_param + 1 } else { 31 }, "[C03] ';' starts the next parameter, at most 32 of them");
+        kv_assert!(p.params[i].parts[j] == old_part && p.params[i].cur_part == old_cur_part, "[C03] ';' changes no value");
     } else if c == ':' {
-        assert!(p.cur_param == cur_param, "[C03] ':' stays in the current parameter");
-        assert!(p.params[i].parts[j] == old_part, "[C03] ':' changes no value");
+        kv_assert!(p.cur_param == cur_param, "[C03] ':' stays in the current parameter");
+        kv_assert!(p.params[i].parts[j] == old_part, "[C03] ':' changes no value");
         if i == cur_param {
-            assert!(p.params[i].cur_part == if old_cur_part < 5 { old_cur_part + 1 } else { 5 }, "[C03] ':' advances the sub-parameter");
+            kv_assert!(p.params[i].cur_part == if old_cur_part < 5 { old_cur_part + 1 } else { 5 }, "[C03] ':' advances the sub-parameter");
         } else {
-            assert!(p.params[i].cur_part == old_cur_part, "[C03] ':' touches only the current parameter");
+            kv_assert!(p.params[i].cur_part == old_cur_part, "[C03] ':' touches only the current parameter");
         }
     } else {
         let d = c as u32 - 0x30;
-        assert!(p.cur_param == cur_param, "[C03] a digit stays in the current parameter");
-        assert!(p.params[i].cur_part == old_cur_part, "[C03] a digit keeps the sub-parameter index");
+        kv_assert!(p.cur_param == cur_param, "[C03] a digit stays in the current parameter");
+        kv_assert!(p.params[i].cur_part == old_cur_part, "[C03] a digit keeps the sub-parameter index");
         if i == cur_param && j == cp_cur_part {
-            assert!(p.params[i].parts[j] == ((old_part as u32 * 10 + d) % 65536) as u16, "[C03] digits accumulate decimally (mod 2^16)");
+            kv_assert!(p.params[i].parts[j] == ((old_part as u32 * 10 + d) % 65536) as u16, "[C03] digits accumulate decimally (mod 2^16)");
         } else {
-            assert!(p.params[i].parts[j] == old_part, "[C03] a digit changes only the current sub-parameter");
+            kv_assert!(p.params[i].parts[j] == old_part, "[C03] a digit changes only the current sub-parameter");
         }
     }
     assert_inv_p(&p, true);
@@ -467,7 +467,7 @@ pub(crate) fn t_p_param_clear() {
     q.clear();
     let j = any_usize();
     assume(j < MAX_PARAM_LEN);
-    assert!(q.cur_part == 0 && q.parts[j] == 0, "[C03] clearing a parameter leaves no stale sub-parameter");
+    kv_assert!(q.cur_part == 0 && q.parts[j] == 0, "[C03] clearing a parameter leaves no stale sub-parameter");
     kv_end!();
 }
 
@@ -476,9 +476,9 @@ pub(crate) fn t_p_clear(cur_param: usize) {
     let mut p = any_parser(any_state(), cur_param);
     let st = p.state;
     p.clear();
-    assert!(p.cur_param == 0 && p.intermediate.is_none(), "[C03] entering a sequence forgets the previous parameter count and intermediate");
-    assert!(params_all_default(&p), "[C03] entering a sequence forgets every previous parameter value");
-    assert!(p.state == st, "[C03] clear does not change the state");
+    kv_assert!(p.cur_param == 0 && p.intermediate.is_none(), "[C03] entering a sequence forgets the previous parameter count and intermediate");
+    kv_assert!(params_all_default(&p), "[C03] entering a sequence forgets every previous parameter value");
+    kv_assert!(p.state == st, "[C03] clear does not change the state");
     kv_end!();
 }
 
@@ -488,11 +488,11 @@ pub(crate) fn t_p_collect() {
     let st = p.state;
     let v = p.params[0].parts[0];
     p.collect(c);
-    assert!(p.intermediate == Some(c), "[C03] the intermediate / private marker is remembered as written");
-    assert!(p.state == st && p.cur_param == 1 && p.params[0].parts[0] == v, "[C03] collect changes nothing else");
+    kv_assert!(p.intermediate == Some(c), "[C03] the intermediate / private marker is remembered as written");
+    kv_assert!(p.state == st && p.cur_param == 1 && p.params[0].parts[0] == v, "[C03] collect changes nothing else");
     p.put(c);
     p.osc_put(c);
-    assert!(p.intermediate == Some(c) && p.state == st && p.cur_param == 1 && p.params[0].parts[0] == v, "[C20] string payload is dropped without any effect");
+    kv_assert!(p.intermediate == Some(c) && p.state == st && p.cur_param == 1 && p.params[0].parts[0] == v, "[C20] string payload is dropped without any effect");
     kv_end!();
 }
 
@@ -662,10 +662,10 @@ pub(crate) fn t_p_exec() {
     let c = any_char();
     let got = p.execute(c);
     if ref_exec(c).is_none() {
-        assert!(got.is_none(), "[C20][C03] unassigned C0/C1 controls are consumed without effect");
+        kv_assert!(got.is_none(), "[C20][C03] unassigned C0/C1 controls are consumed without effect");
     }
-    assert!(got == ref_exec(c), "[C03] each C0/C1 control yields its function, unassigned ones nothing");
-    assert!(p.state == st, "[C03] executing a control does not change the state by itself");
+    kv_assert!(got == ref_exec(c), "[C03] each C0/C1 control yields its function, unassigned ones nothing");
+    kv_assert!(p.state == st, "[C03] executing a control does not change the state by itself");
     kv_cover!(got == Some(Function::Ri), "RI");
     kv_end!();
 }
@@ -677,13 +677,13 @@ pub(crate) fn t_p_esc() {
     let got = p.esc_dispatch(c);
     let want = ref_esc(im, c);
     if want.is_none() {
-        assert!(got.is_none(), "[C20][C03] unimplemented ESC sequences are consumed without effect");
+        kv_assert!(got.is_none(), "[C20][C03] unimplemented ESC sequences are consumed without effect");
     }
-    assert!(got == want, "[C03] each implemented ESC final yields its function");
-    assert!(p.state == State::Ground, "[C03][C20] an ESC sequence ends in ground state");
+    kv_assert!(got == want, "[C03] each implemented ESC final yields its function");
+    kv_assert!(p.state == State::Ground, "[C03][C20] an ESC sequence ends in ground state");
     if im.is_none() && (0x40..=0x5f).contains(&(c as u32)) {
         let c1 = unsafe { char::from_u32_unchecked(c as u32 + 0x40) };
-        assert!(got == ref_exec(c1), "[C03] 7-bit ESC Fe acts exactly like its 8-bit C1 counterpart");
+        kv_assert!(got == ref_exec(c1), "[C03] 7-bit ESC Fe acts exactly like its 8-bit C1 counterpart");
     }
     kv_cover!(got == Some(Function::Ris), "RIS");
     kv_cover!(got == Some(Function::Gzd4(Charset::Drawing)), "G0 drawing");
@@ -701,10 +701,10 @@ pub(crate) fn t_p_csi_scalar(cur_param: usize) {
     let got = p.csi_dispatch(c);
     let want = ref_csi_scalar(im, p0, p1, p2, c);
     if want.is_none() {
-        assert!(got.is_none(), "[C20][C03] CSI sequences with unimplemented finals, private markers or intermediates are consumed without effect");
+        kv_assert!(got.is_none(), "[C20][C03] CSI sequences with unimplemented finals, private markers or intermediates are consumed without effect");
     }
-    assert!(got == want, "[C03] each implemented CSI final yields its function with the parameters as written");
-    assert!(p.state == State::Ground && p.cur_param == cur_param, "[C03][C20] dispatch leaves the parser in ground state");
+    kv_assert!(got == want, "[C03] each implemented CSI final yields its function with the parameters as written");
+    kv_assert!(p.state == State::Ground && p.cur_param == cur_param, "[C03][C20] dispatch leaves the parser in ground state");
     kv_cover!(matches!(got, Some(Function::Cup(65535, 0))), "CUP 65535;0");
     kv_cover!(matches!(got, Some(Function::Xtwinops(_))), "XTWINOPS 8");
     kv_cover!(got == Some(Function::Decstr), "DECSTR");
@@ -734,39 +734,39 @@ pub(crate) fn t_p_csi_modes(cur_param: usize, private: bool, set: bool) {
     assume(k < PARAMS_LEN);
     match got {
         Some(Function::Sm(v)) => {
-            assert!(!private && set, "[C03] SM is CSI h without marker");
-            assert!(v.len() == n, "[C03] every recognised mode parameter is passed on, unknown ones are dropped");
+            kv_assert!(!private && set, "[C03] SM is CSI h without marker");
+            kv_assert!(v.len() == n, "[C03] every recognised mode parameter is passed on, unknown ones are dropped");
             if k < n {
-                assert!(ansi_code(&v[k]) == want[k], "[C03] modes are passed on in the order written");
+                kv_assert!(ansi_code(&v[k]) == want[k], "[C03] modes are passed on in the order written");
             }
             std::mem::forget(v);
         }
         Some(Function::Rm(v)) => {
-            assert!(!private && !set, "[C03] RM is CSI l without marker");
-            assert!(v.len() == n, "[C03] every recognised mode parameter is passed on, unknown ones are dropped");
+            kv_assert!(!private && !set, "[C03] RM is CSI l without marker");
+            kv_assert!(v.len() == n, "[C03] every recognised mode parameter is passed on, unknown ones are dropped");
             if k < n {
-                assert!(ansi_code(&v[k]) == want[k], "[C03] modes are passed on in the order written");
+                kv_assert!(ansi_code(&v[k]) == want[k], "[C03] modes are passed on in the order written");
             }
             std::mem::forget(v);
         }
         Some(Function::Decset(v)) => {
-            assert!(private && set, "[C03] DECSET is CSI ? h");
-            assert!(v.len() == n, "[C03] every recognised mode parameter is passed on, unknown ones are dropped");
+            kv_assert!(private && set, "[C03] DECSET is CSI ? h");
+            kv_assert!(v.len() == n, "[C03] every recognised mode parameter is passed on, unknown ones are dropped");
             if k < n {
-                assert!(dec_code(&v[k]) == want[k], "[C03] modes are passed on in the order written");
+                kv_assert!(dec_code(&v[k]) == want[k], "[C03] modes are passed on in the order written");
             }
             std::mem::forget(v);
         }
         Some(Function::Decrst(v)) => {
-            assert!(private && !set, "[C03] DECRST is CSI ? l");
-            assert!(v.len() == n, "[C03] every recognised mode parameter is passed on, unknown ones are dropped");
+            kv_assert!(private && !set, "[C03] DECRST is CSI ? l");
+            kv_assert!(v.len() == n, "[C03] every recognised mode parameter is passed on, unknown ones are dropped");
             if k < n {
-                assert!(dec_code(&v[k]) == want[k], "[C03] modes are passed on in the order written");
+                kv_assert!(dec_code(&v[k]) == want[k], "[C03] modes are passed on in the order written");
             }
             std::mem::forget(v);
         }
         _ => {
-            assert!(false, "[C03] CSI h / l always yields a mode function");
+            kv_assert!(false, "[C03] CSI h / l always yields a mode function");
         }
     }
     kv_cover!(n == cur_param + 1, "every parameter is a known mode");
@@ -905,7 +905,7 @@ pub(crate) fn t_p_sgr_shape(k: usize, shape: [u8; 6]) {
     let ps = &arr[..k];
     let mut it = SgrOps { ps };
     if k == 0 {
-        assert!(it.next().is_none(), "[C08] an exhausted SGR list yields nothing more");
+        kv_assert!(it.next().is_none(), "[C08] an exhausted SGR list yields nothing more");
         kv_end!();
         return;
     }
@@ -913,8 +913,8 @@ pub(crate) fn t_p_sgr_shape(k: usize, shape: [u8; 6]) {
         SgrRef::Unspecified => {}
         SgrRef::Op(op, n) => {
             let got = it.next();
-            assert!(got == Some(op), "[C08] SGR parameters decode to the listed attribute / colour operations");
-            assert!(it.ps.len() == k - n, "[C08] an SGR operation consumes exactly its own parameters");
+            kv_assert!(got == Some(op), "[C08] SGR parameters decode to the listed attribute / colour operations");
+            kv_assert!(it.ps.len() == k - n, "[C08] an SGR operation consumes exactly its own parameters");
             kv_cover!(n == 3, "38;5;n list form");
             kv_cover!(n == 5, "38;2;r;g;b list form");
             kv_cover!(n == 1 && ps[0].cur_part == 5, "38:2::r:g:b sub-parameter form");
@@ -924,8 +924,8 @@ pub(crate) fn t_p_sgr_shape(k: usize, shape: [u8; 6]) {
             let mut it2 = SgrOps { ps: &ps[1..] };
             let got = it.next();
             let got2 = it2.next();
-            assert!(got == got2, "[C08] an unknown SGR parameter is skipped without disturbing its neighbours");
-            assert!(it.ps.len() == it2.ps.len(), "[C08] an unknown SGR parameter is skipped alone");
+            kv_assert!(got == got2, "[C08] an unknown SGR parameter is skipped without disturbing its neighbours");
+            kv_assert!(it.ps.len() == it2.ps.len(), "[C08] an unknown SGR parameter is skipped alone");
             kv_cover!(got.is_some(), "operation after an unknown code");
         }
     }
@@ -967,8 +967,8 @@ pub(crate) fn t_p_sgr_lead(k: usize, skips: usize) {
     let mut it = SgrOps { ps };
     if let SgrRef::Op(op, n) = lead {
         let got = it.next();
-        assert!(got == Some(op), "[C08] SGR parameters decode to the listed attribute / colour operations, unknown ones are skipped alone");
-        assert!(it.ps.len() == k - skips - n, "[C08] an SGR operation consumes exactly its own parameters");
+        kv_assert!(got == Some(op), "[C08] SGR parameters decode to the listed attribute / colour operations, unknown ones are skipped alone");
+        kv_assert!(it.ps.len() == k - skips - n, "[C08] an SGR operation consumes exactly its own parameters");
         kv_cover!(n == 3, "38;5;n list form");
         kv_cover!(n == 5, "38;2;r;g;b list form");
         kv_cover!(n == 1 && ps[skips].cur_part == 5, "38:2::r:g:b sub-parameter form");
@@ -993,9 +993,9 @@ pub(crate) fn t_p_mem(cur_param: usize) {
         _ => '\u{90}',
     };
     let out = p.feed(c);
-    assert!(out.is_none(), "[C03] a sequence introducer causes no function");
-    assert!(p.cur_param == 0 && p.intermediate.is_none(), "[C03] dispatch is independent of earlier sequences: count and intermediate are forgotten");
-    assert!(params_all_default(&p), "[C03] dispatch is independent of earlier sequences: parameter values are forgotten");
+    kv_assert!(out.is_none(), "[C03] a sequence introducer causes no function");
+    kv_assert!(p.cur_param == 0 && p.intermediate.is_none(), "[C03] dispatch is independent of earlier sequences: count and intermediate are forgotten");
+    kv_assert!(params_all_default(&p), "[C03] dispatch is independent of earlier sequences: parameter values are forgotten");
     kv_end!();
 }
 
@@ -1017,12 +1017,12 @@ pub(crate) fn t_p_fe(cur_param: usize) {
     let o1 = a.feed('\u{1b}');
     let o2 = a.feed(c7);
     let o8 = b.feed(c8);
-    assert!(o1.is_none(), "[C03] ESC alone causes no function");
-    assert!(o2 == o8, "[C03] 7-bit ESC Fe yields the same function as its 8-bit C1 counterpart");
-    assert!(a.state == b.state, "[C03] 7-bit ESC Fe leaves the same state as its 8-bit C1 counterpart");
+    kv_assert!(o1.is_none(), "[C03] ESC alone causes no function");
+    kv_assert!(o2 == o8, "[C03] 7-bit ESC Fe yields the same function as its 8-bit C1 counterpart");
+    kv_assert!(a.state == b.state, "[C03] 7-bit ESC Fe leaves the same state as its 8-bit C1 counterpart");
     if a.state == State::CsiEntry || a.state == State::DcsEntry {
-        assert!(a.cur_param == 0 && b.cur_param == 0 && a.intermediate.is_none() && b.intermediate.is_none(), "[C03] both spellings start the sequence with a clean slate");
-        assert!(params_all_default(&a) && params_all_default(&b), "[C03] both spellings start the sequence with a clean slate");
+        kv_assert!(a.cur_param == 0 && b.cur_param == 0 && a.intermediate.is_none() && b.intermediate.is_none(), "[C03] both spellings start the sequence with a clean slate");
+        kv_assert!(params_all_default(&a) && params_all_default(&b), "[C03] both spellings start the sequence with a clean slate");
     }
     kv_cover!(o2 == Some(Function::Ri), "ESC M == RI");
     kv_cover!(a.state == State::CsiEntry, "ESC [ == CSI");
@@ -1039,10 +1039,10 @@ pub(crate) fn t_p_fe_table() {
     let c7 = unsafe { char::from_u32_unchecked(v) };
     let c8 = unsafe { char::from_u32_unchecked(v + 0x40) };
     let (s_esc, a_esc) = ref_step(s, '\u{1b}');
-    assert!(s_esc == State::Escape && a_esc == Act::Clear, "[C03] ESC enters the escape state from anywhere");
+    kv_assert!(s_esc == State::Escape && a_esc == Act::Clear, "[C03] ESC enters the escape state from anywhere");
     let (s7, a7) = ref_step(State::Escape, c7);
     let (s8, a8) = ref_step(s, c8);
-    assert!(s7 == s8, "[C03] 7-bit ESC Fe leaves the same state as its 8-bit C1 counterpart");
+    kv_assert!(s7 == s8, "[C03] 7-bit ESC Fe leaves the same state as its 8-bit C1 counterpart");
     let same = match (a7, a8) {
         (Act::EscDispatch, Act::Execute) => true,
         // ESC \ dispatches ST, which has no function (ref_exec(0x9c) == None, t_p_esc)
@@ -1051,7 +1051,7 @@ pub(crate) fn t_p_fe_table() {
         (Act::Ignore, Act::Ignore) => true,
         _ => false,
     };
-    assert!(same, "[C03] 7-bit ESC Fe causes the same kind of action as its 8-bit C1 counterpart");
+    kv_assert!(same, "[C03] 7-bit ESC Fe causes the same kind of action as its 8-bit C1 counterpart");
     kv_end!();
 }
 
@@ -1060,9 +1060,9 @@ pub(crate) fn t_p_ris(cur_param: usize) {
     let mut p = any_parser(any_state(), cur_param);
     let o1 = p.feed('\u{1b}');
     let o2 = p.feed('c');
-    assert!(o1.is_none() && o2 == Some(Function::Ris), "[C19] ESC c is RIS from every parser state");
-    assert!(p.state == State::Ground && p.cur_param == 0 && p.intermediate.is_none(), "[C19] after RIS the parser is in ground state with nothing pending");
-    assert!(params_all_default(&p), "[C19] after RIS the parser holds no stale parameter");
+    kv_assert!(o1.is_none() && o2 == Some(Function::Ris), "[C19] ESC c is RIS from every parser state");
+    kv_assert!(p.state == State::Ground && p.cur_param == 0 && p.intermediate.is_none(), "[C19] after RIS the parser is in ground state with nothing pending");
+    kv_assert!(params_all_default(&p), "[C19] after RIS the parser holds no stale parameter");
     kv_end!();
 }
 
@@ -1105,21 +1105,21 @@ pub(crate) fn t_p_strings(cur_param: usize) {
     let c = any_char();
     if is_payload(s, c) {
         let out = p.feed(c);
-        assert!(out.is_none(), "[C20] control-string payload yields no function (nothing is printed or executed)");
-        assert!(is_string_state(p.state), "[C20] control-string payload does not end the string");
+        kv_assert!(out.is_none(), "[C20] control-string payload yields no function (nothing is printed or executed)");
+        kv_assert!(is_string_state(p.state), "[C20] control-string payload does not end the string");
         kv_cover!(c == '\u{7}' && s == State::DcsPassthrough, "BEL inside DCS is payload");
         kv_cover!(c as u32 >= 0xa0, "non-ASCII payload");
     } else if c == '\u{9c}' {
         let out = p.feed(c);
-        assert!(out.is_none() && p.state == State::Ground, "[C20] ST ends the string in ground state without a function");
+        kv_assert!(out.is_none() && p.state == State::Ground, "[C20] ST ends the string in ground state without a function");
     } else if c == '\u{7}' {
         // only reachable for OSC
         let out = p.feed(c);
-        assert!(out.is_none() && p.state == State::Ground, "[C20] BEL ends an OSC string in ground state without a function");
+        kv_assert!(out.is_none() && p.state == State::Ground, "[C20] BEL ends an OSC string in ground state without a function");
     } else if c == '\u{1b}' {
         let o1 = p.feed(c);
         let o2 = p.feed('\\');
-        assert!(o1.is_none() && o2.is_none() && p.state == State::Ground, "[C20] ESC \\ ends the string in ground state without a function");
+        kv_assert!(o1.is_none() && o2.is_none() && p.state == State::Ground, "[C20] ESC \\ ends the string in ground state without a function");
     }
     kv_end!();
 }
@@ -1143,11 +1143,11 @@ pub(crate) fn t_p_string_intro() {
     };
     if any_bool() {
         let o = p.feed(c8);
-        assert!(o.is_none() && p.state == want, "[C20] 8-bit string introducer enters the string state");
+        kv_assert!(o.is_none() && p.state == want, "[C20] 8-bit string introducer enters the string state");
     } else {
         let o1 = p.feed('\u{1b}');
         let o2 = p.feed(c7);
-        assert!(o1.is_none() && o2.is_none() && p.state == want, "[C20] 7-bit string introducer enters the string state");
+        kv_assert!(o1.is_none() && o2.is_none() && p.state == want, "[C20] 7-bit string introducer enters the string state");
     }
     kv_end!();
 }
